@@ -926,6 +926,42 @@ for _nm, _keys in (("SXIFilter", ("grow-only-this-name",)), ("full", tuple(_IFIL
         merge_branches=False,
     )
 
+# `mid` (second wave): the two result cases folded into ONE unconditional statement, proved directly on the body: after filter(), whatever
+# it returns, in EVERY master that has the glyph no reference to a skipped glyph is left.  On the declining path this needs the step
+# from `gs[glyphName] in glyphs` to a position of `glyphs` (engine option seq_positions=True); it makes the composition through the
+# lemmas C13.joint / C13.seq-member-has-position below redundant (they are kept as an independent second derivation).
+# Meant as the summary for a future post-state contract of BaseIFilter.__call__ (lean: no result-conditional clause, no array equality).
+contract(
+    "ufo2ft.filters.skipExportGlyphs:SkipExportGlyphsIFilter.filter",
+    name="mid",
+    props=["C13"],
+    params={"self": Ref("SXIFilter"), "glyphName": STR, "glyphs": List(Ref("SXGlyph"))},
+    returns=BOOL,
+    calls=_CALLS_SKIP,
+    globals={"zip_strict": _Ref("builtins.zip", zip, obj=zip)},
+    requires=[_LEN_MATCH, f"all(implies(glyphName in gs.keyset, gs[glyphName] in glyphs) for gs in {_GSS})", _WELL_NAMED],
+    ensures={
+        "pruned-in-all-masters": _PRUNED_ALL,
+        "others": _IFILTER_ENSURES["others"],
+        "grow-only-this-name": _IFILTER_ENSURES["grow-only-this-name"],
+        "well-named": _WELL_NAMED,
+    },
+    canaries={"always-touched": "result", "no-components": f"all(implies(glyphName in gs.keyset, len(gs[glyphName].components) == 0) for gs in {_GSS})"},
+    modifies=["SXGlyph.components", "SXGlyph.ncontours", "SXGlyphSet.glyphs"],
+    merge_branches=False,
+    seq_positions=True,
+    loops={
+        "for (glyphSet, interpolatedLayer) in zip_strict(self.context.glyphSets, self.getInterpolatedLayers())": Loop(
+            index="k",
+            invariants={
+                "done": f"all(implies(glyphName in {_GSS}[a].keyset, all(c.baseGlyph not in {_SKIP} for c in {_GSS}[a][glyphName].components)) for a in range(k))",
+                "others": f"all(all(implies(n != glyphName, self.heap_components[gs[n]] == HC1[gs[n]]) for n in gs.keyset) for gs in {_GSS})",
+            },
+        )
+    },
+    ghost_vars={"HC1": (Map(Ref("SXGlyph"), List(Ref("SXComponent"))), "self.heap_components")},
+)
+
 # The two result cases of the filter compose to "no master is left with a reference to a skipped glyph".  The step from
 # `x in glyphs` (how BaseIFilter.__call__'s list comprehension is encoded) to "some position of glyphs holds x" is the
 # sequence-theory fact C13.seq-member-has-position (quantifier-free form, discharged by cvc5).
@@ -1134,6 +1170,7 @@ def _call_positional(fn, a):
 
 
 CONTRACTS["ufo2ft.filters.skipExportGlyphs:SkipExportGlyphsIFilter.filter#full"].runtime = Runtime(_ifam_cases, _ib_filter)
+CONTRACTS["ufo2ft.filters.skipExportGlyphs:SkipExportGlyphsIFilter.filter#mid"].runtime = Runtime(_ifam_cases, _ib_filter)
 CONTRACTS["ufo2ft.filters.base:BaseIFilter.set_context#SXIFilter"].runtime = Runtime(_ifam_cases, _ib_call)
 CONTRACTS["ufo2ft.filters.base:BaseIFilter.__call__#SXIFilter"].runtime = Runtime(_ifam_cases, _ib_call)
 CONTRACTS["ufo2ft.filters.skipExportGlyphs:SkipExportGlyphsIFilter.__call__#SXIFilter"].runtime = Runtime(_ifam_cases, _ib_call)
